@@ -43,6 +43,14 @@ theorem decomp (p n : ℕ) : p = p / n * n + p % n := by
   rw [Nat.mul_comm] at this
   exact this.symm
 
+/-- a result index `j < outLen m n` lies in extended interval `j / n + 1 ≤ m` -/
+theorem interval_le {m n j : ℕ} (hn : 2 ≤ n) (hm : 2 ≤ m) (hj : j < outLen m n) :
+    j / n + 1 ≤ m := by
+  have h1 : j ≤ (m - 1) * n := Nat.le_of_lt_succ hj
+  have h2 : j / n ≤ (m - 1) * n / n := Nat.div_le_div_right h1
+  rw [Nat.mul_div_cancel _ (by omega : 0 < n)] at h2
+  omega
+
 theorem natCast_ne_zero_of_two_le {n : ℕ} (hn : 2 ≤ n) : (n : K) ≠ 0 := by
   have : (0 : K) < (n : K) := by exact_mod_cast (by omega : 0 < n)
   exact ne_of_gt this
